@@ -29,8 +29,7 @@ class C05(SessionCheck):
             'capability lists with/without either base version in either URN form, parameters, duplicates, empty <capability/>, missing '
             'session-id; server hello arriving before / after / split across the client hello being written (SSH channel not ready), '
             'arbitrary hello segmentation, hello timeout, session death before the hello; the hello taken off the wire is parsed with '
-            'Server hellos with odd capability query parts, comments / PIs, a 7 kB banner or 120 prefix declarations before / on the root; SSH and Unix connects with the Junos streaming filter option. '
-            'xml.etree. Plus the regenerated per-profile capability table. Non-trivial = history >= 8 commands.')
+            'xml.etree. Plus the regenerated per-profile capability table. Server hellos with odd capability query parts, comments / PIs, a 7 kB banner or 120 prefix declarations before / on the root; SSH and Unix connects with the Junos streaming filter option. Non-trivial = history >= 8 commands.')
 
     def gen_tables(self, log):
         from gen import profiles
